@@ -386,46 +386,82 @@ Qed.
 (* ------------------------------------------------------------------ levels reach the files *)
 Definition data4 (r p d en : obj) : obj := merge_data (merge_data (merge_data r p) d) en.
 
-Lemma chain2 r p k : alookup k (chain [r; p]) = alookup k (merge_data r p).
+Lemma merge_data_nil_l r : merge_data [] r = r.
 Proof.
-  unfold chain; simpl. rewrite (alookup_merge_data (merge_data [] r) p), (alookup_merge_data r p).
-  destruct (alookup k p) as [dv|] eqn:E.
-  - f_equal. unfold merge_val. destruct dv; try reflexivity.
-    rewrite merge_data_nil_src. reflexivity.
-  - apply merge_data_nil_src.
+  rewrite merge_data_eq. unfold src_only, merge_upd; simpl. rewrite app_nil_r.
+  induction r as [|[k v] t IH]; simpl; [reflexivity|]. rewrite IH. f_equal. f_equal.
+  unfold merge_val. destruct v; reflexivity.
 Qed.
+
+Lemma chain2 r p : chain [r; p] = merge_data r p.
+Proof. unfold chain; simpl. now rewrite merge_data_nil_l. Qed.
+Lemma chain3 r p d : chain [r; p; d] = merge_data (merge_data r p) d.
+Proof. unfold chain; simpl. now rewrite merge_data_nil_l. Qed.
+Lemma chain4 r p d en : chain [r; p; d; en] = data4 r p d en.
+Proof. unfold chain, data4; simpl. now rewrite merge_data_nil_l. Qed.
 
 (* every mock of every interface ends up in exactly the file it names, with the data merged
    over all levels; the file-level data is root merged under package *)
-Lemma files_of_pkg_data r p f : In f (files_of_pkg r p) -> f_data f = pkg_data r (p_lvl p).
+Lemma files_of_pkg_data r p f :
+  In f (files_of_pkg FLPackage r p) -> f_data f = pkg_data r (p_lvl p).
 Proof. unfold files_of_pkg. rewrite in_map_iff. intros [g [<- _]]. reflexivity. Qed.
 
-Lemma files_of_pkg_settings r p f :
-  In f (files_of_pkg r p) ->
+(* groups are never empty *)
+Lemma group_add_nonempty {X} k (x : X) g :
+  (forall k0 xs, In (k0, xs) g -> xs <> []) -> forall k0 xs, In (k0, xs) (group_add k x g) -> xs <> [].
+Proof.
+  induction g as [|[k' ys] t IH]; simpl; intros Hg k0 xs.
+  - intros [H|[]]. inversion H. discriminate.
+  - destruct (seqb k k').
+    + intros [H|H]; [inversion H; destruct ys; discriminate | eapply Hg; right; exact H].
+    + intros [H|H]; [eapply Hg; left; exact H|]. eapply IH; [|exact H].
+      intros k1 zs Hz. eapply Hg. right. exact Hz.
+Qed.
+Lemma group_nonempty {X} (l : list (str * X)) k xs : In (k, xs) (group l) -> xs <> [].
+Proof.
+  unfold group.
+  assert (forall g, (forall k0 ys, In (k0, ys) g -> ys <> []) ->
+                    forall k0 ys, In (k0, ys) (fold_left (fun g kx => group_add (fst kx) (snd kx) g) l g) -> ys <> []) as H.
+  { induction l as [|[k1 x1] t IH]; intros g Hg; simpl; [exact Hg|].
+    apply IH. now apply group_add_nonempty. }
+  apply H. intros k0 ys [].
+Qed.
+
+(* in first-mock mode the file-level data IS the data of a mock of the file *)
+Lemma files_of_pkg_data_first r p f :
+  In f (files_of_pkg FLFirstMock r p) -> exists n, In (n, f_data f) (f_ifaces f).
+Proof.
+  unfold files_of_pkg. rewrite in_map_iff. intros [[k xs] [<- Hg]]. simpl.
+  pose proof (group_nonempty _ _ _ Hg) as Hne. destruct xs as [|[n d] t]; [congruence|].
+  exists n. now left.
+Qed.
+
+Lemma files_of_pkg_settings m r p f :
+  In f (files_of_pkg m r p) ->
   f_template f = eff_template r (p_lvl p) /\ f_schema f = eff_schema r (p_lvl p) /\
   f_require f = eff_require r (p_lvl p) /\ f_rest_ok f = p_rest_ok p.
 Proof. unfold files_of_pkg. rewrite in_map_iff. intros [g [<- _]]. simpl. tauto. Qed.
 
-Lemma mock_reaches_file r p file name d :
+Lemma mock_reaches_file m r p file name d :
   In (file, (name, d)) (flat_map (mocks_of_iface (pkg_data r (p_lvl p)) (p_all p) (p_file p)) (p_ifaces p)) ->
-  exists f, In f (files_of_pkg r p) /\ f_path f = file /\ In (name, d) (f_ifaces f).
+  exists f, In f (files_of_pkg m r p) /\ f_path f = file /\ In (name, d) (f_ifaces f).
 Proof.
   intros H. apply group_In in H as [xs [H1 H2]].
   eexists. split; [unfold files_of_pkg; apply in_map_iff; eexists; split; [reflexivity | exact H1]|].
   simpl. tauto.
 Qed.
 
-Lemma file_members_are_mocks r p f name d :
-  In f (files_of_pkg r p) -> In (name, d) (f_ifaces f) ->
+Lemma file_members_are_mocks m r p f name d :
+  In f (files_of_pkg m r p) -> In (name, d) (f_ifaces f) ->
   In (f_path f, (name, d)) (flat_map (mocks_of_iface (pkg_data r (p_lvl p)) (p_all p) (p_file p)) (p_ifaces p)).
 Proof.
   unfold files_of_pkg. rewrite in_map_iff. intros [[k xs] [<- Hg]] Hx. simpl in *.
   eapply group_sound; eassumption.
 Qed.
 
-Lemma entry_reaches_file r p name d file es en :
+Lemma entry_reaches_file m r p name d file es en :
   In (name, Listed d file es) (p_ifaces p) -> In en es ->
-  exists f, In f (files_of_pkg r p) /\ f_path f = en_file en /\
+  exists f, In f (files_of_pkg m r p) /\ f_path f = en_file en /\
             In (name, data4 (l_data r) (l_data (p_lvl p)) d (en_data en)) (f_ifaces f).
 Proof.
   intros Hi He. apply mock_reaches_file. apply in_flat_map. eexists. split; [exact Hi|].
@@ -433,34 +469,22 @@ Proof.
   apply in_map_iff. exists en. split; [reflexivity | exact He].
 Qed.
 
-Lemma listed_reaches_file r p name d file :
+Lemma listed_reaches_file m r p name d file :
   In (name, Listed d file []) (p_ifaces p) ->
-  exists f, In f (files_of_pkg r p) /\ f_path f = file /\
+  exists f, In f (files_of_pkg m r p) /\ f_path f = file /\
             In (name, merge_data (merge_data (l_data r) (l_data (p_lvl p))) d) (f_ifaces f).
 Proof.
   intros Hi. apply mock_reaches_file. apply in_flat_map. eexists. split; [exact Hi|].
   simpl. now left.
 Qed.
 
-Lemma unlisted_reaches_file r p name :
+Lemma unlisted_reaches_file m r p name :
   In (name, Unlisted) (p_ifaces p) -> p_all p = true ->
-  exists f, In f (files_of_pkg r p) /\ f_path f = p_file p /\
+  exists f, In f (files_of_pkg m r p) /\ f_path f = p_file p /\
             In (name, merge_data (l_data r) (l_data (p_lvl p))) (f_ifaces f).
 Proof.
   intros Hi Ha. apply mock_reaches_file. apply in_flat_map. eexists. split; [exact Hi|].
   simpl. rewrite Ha. now left.
-Qed.
-
-Lemma data4_chain r p d en k :
-  alookup k (data4 r p d en) = alookup k (merge_data (merge_data (merge_data (merge_data [] r) p) d) en).
-Proof.
-  unfold data4.
-  assert (forall a b c, (forall k, alookup k a = alookup k b) ->
-                        forall k, alookup k (merge_data a c) = alookup k (merge_data b c)) as Hext.
-  { (* only the top level of src is consulted for scalars; for nested maps we need more *)
-    intros a b c Hab k0. rewrite !alookup_merge_data. destruct (alookup k0 c) as [dv|]; [|apply Hab].
-    f_equal. unfold merge_val. destruct dv; try reflexivity. now rewrite Hab. }
-  apply Hext. apply Hext. apply Hext. intros k0. symmetry. apply merge_data_nil_src.
 Qed.
 
 (* ------------------------------------------------------------------ cache transparency *)
@@ -516,7 +540,7 @@ Proof.
             match cfind k c with Some r => r | None => new_rt (f_template f) (f_schema f) end) as Hr0.
   { destruct (cfind k c) eqn:E; [apply Hc; exact E | apply rt_ok_new]. }
   revert Hr0. generalize (match cfind k c with Some r => r | None => new_rt (f_template f) (f_schema f) end).
-  intros r0 [Ht [Hs [Htd Hsd]]]. simpl in Ht, Hs.
+  intros r0 [Ht [Hs [Htd Hsd]]]. subst k. simpl in Ht, Hs, Htd, Hsd. simpl cache_key.
   unfold rt_template.
   destruct (rt_tdl r0) eqn:Etdl.
   - (* template already downloaded *)
@@ -525,7 +549,7 @@ Proof.
     + unfold rt_schema. destruct (rt_sdl r0) eqn:Esdl.
       * destruct (Hsd eq_refl) as [sc [s [Hd2 [Hcs Hrs]]]]. rewrite Hd2, Hcs, Hrs. simpl.
         split; [reflexivity|]. intros _. apply cache_ok_put; [exact Hc|].
-        unfold rt_ok; simpl. rewrite Etdl, Esdl. repeat split; auto.
+        unfold rt_ok; simpl. repeat split; auto; intros _; eauto.
       * rewrite Hs. destruct (download (e_fs e) (f_schema f)) as [sc|] eqn:Hd2; simpl.
         -- destruct (c_schema sc) as [s|] eqn:Hcs; simpl; [|split; [reflexivity | congruence]].
            split; [reflexivity|]. intros _. apply cache_ok_put; [exact Hc|].
@@ -540,7 +564,7 @@ Proof.
     + unfold rt_schema; simpl. destruct (rt_sdl r0) eqn:Esdl.
       * destruct (Hsd eq_refl) as [sc [s [Hd2 [Hcs Hrs]]]]. rewrite Hd2, Hcs, Hrs. simpl.
         split; [reflexivity|]. intros _. apply cache_ok_put; [exact Hc|].
-        unfold rt_ok; simpl. rewrite Esdl. repeat split; auto. intros _. eauto.
+        unfold rt_ok; simpl. repeat split; auto; intros _; eauto.
       * rewrite Hs. destruct (download (e_fs e) (f_schema f)) as [sc|] eqn:Hd2; simpl.
         -- destruct (c_schema sc) as [s|] eqn:Hcs; simpl; [|split; [reflexivity | congruence]].
            split; [reflexivity|]. intros _. apply cache_ok_put; [exact Hc|].
@@ -735,4 +759,123 @@ Proof.
   - apply perm_swap.
   - intros f [<-|[<-|[]]]; vm_compute; reflexivity.
   - vm_compute. discriminate.
+Qed.
+
+(* ------------------------------------------------------------------ world level *)
+Lemma str_nodup_NoDup l : str_nodup l = true -> NoDup l.
+Proof.
+  induction l as [|x t IH]; simpl; [constructor|].
+  rewrite andb_true_iff, negb_true_iff. intros [H1 H2]. constructor; [|now apply IH].
+  now apply smem_false.
+Qed.
+
+Lemma world_files_spec w fs :
+  world_files w = Some fs ->
+  fs = flat_map (files_of_pkg (w_fl w) (w_root w)) (w_pkgs w) /\ NoDup (map f_path fs).
+Proof.
+  unfold world_files. destruct (str_nodup _) eqn:E; [|discriminate].
+  intros H; injection H as <-. split; [reflexivity | now apply str_nodup_NoDup].
+Qed.
+
+Theorem invalid_never_written w fs fo f :
+  world_files w = Some fs -> Permutation fs fo -> In f fs -> spec_file (w_env w) f = FError ->
+  ~ In (f_path f) (snd (run KTemplateSchema (w_env w) fo)) /\
+  fst (run KTemplateSchema (w_env w) fo) = ExitErr.
+Proof.
+  intros Hw HP Hin Herr. destruct (world_files_spec _ _ Hw) as [_ ND].
+  destruct (written_iff_valid (w_env w) fs fo HP) as [H1 [H2 _]]. split.
+  - intros Hp. destruct (H2 _ Hp) as [g [Hg [Hpath Hok]]].
+    assert (g = f) as -> by (eapply NoDup_map_inj_on; eassumption). congruence.
+  - destruct (fst (run KTemplateSchema (w_env w) fo)) eqn:E; [|reflexivity].
+    rewrite (proj1 H1 eq_refl f Hin) in Herr. discriminate.
+Qed.
+
+Lemma iface_invalid_file_error e f s n d :
+  select_schema e f = SelSchema s -> In (n, d) (f_ifaces f) -> validate s (JObj d) = false ->
+  spec_file e f = FError.
+Proof.
+  intros Hs Hin Hv. destruct (spec_file e f) eqn:E; [|reflexivity].
+  apply spec_file_written_iff in E as [_ [_ E]]. rewrite Hs in E. destruct E as [_ E].
+  rewrite (E _ _ Hin) in Hv. discriminate.
+Qed.
+
+Lemma filedata_invalid_file_error e f s :
+  select_schema e f = SelSchema s -> validate s (JObj (f_data f)) = false -> spec_file e f = FError.
+Proof.
+  intros Hs Hv. destruct (spec_file e f) eqn:E; [|reflexivity].
+  apply spec_file_written_iff in E as [_ [_ E]]. rewrite Hs in E. destruct E as [E _]. congruence.
+Qed.
+
+Lemma In_files_of_world w fs p f :
+  world_files w = Some fs -> In p (w_pkgs w) -> In f (files_of_pkg (w_fl w) (w_root w) p) -> In f fs.
+Proof.
+  intros Hw Hp Hf. destruct (world_files_spec _ _ Hw) as [-> _]. apply in_flat_map. eauto.
+Qed.
+
+(* template-data of a `configs` entry: four levels *)
+Theorem levels_entry w fs fo p name d file es en s :
+  world_files w = Some fs -> Permutation fs fo ->
+  In p (w_pkgs w) -> In (name, Listed d file es) (p_ifaces p) -> In en es ->
+  (forall f, In f (files_of_pkg (w_fl w) (w_root w) p) -> select_schema (w_env w) f = SelSchema s) ->
+  validate s (JObj (chain [l_data (w_root w); l_data (p_lvl p); d; en_data en])) = false ->
+  ~ In (en_file en) (snd (run KTemplateSchema (w_env w) fo)) /\
+  fst (run KTemplateSchema (w_env w) fo) = ExitErr.
+Proof.
+  intros Hw HP Hp Hi He Hsel Hv. rewrite chain4 in Hv.
+  destruct (entry_reaches_file (w_fl w) (w_root w) p name d file es en Hi He) as [f [Hf [Hpath Hm]]].
+  rewrite <- Hpath. eapply invalid_never_written; try eassumption.
+  - eapply In_files_of_world; eassumption.
+  - eapply iface_invalid_file_error; [apply Hsel; exact Hf | exact Hm | exact Hv].
+Qed.
+
+(* interface listed without `configs`: three levels *)
+Theorem levels_listed w fs fo p name d file s :
+  world_files w = Some fs -> Permutation fs fo ->
+  In p (w_pkgs w) -> In (name, Listed d file []) (p_ifaces p) ->
+  (forall f, In f (files_of_pkg (w_fl w) (w_root w) p) -> select_schema (w_env w) f = SelSchema s) ->
+  validate s (JObj (chain [l_data (w_root w); l_data (p_lvl p); d])) = false ->
+  ~ In file (snd (run KTemplateSchema (w_env w) fo)) /\
+  fst (run KTemplateSchema (w_env w) fo) = ExitErr.
+Proof.
+  intros Hw HP Hp Hi Hsel Hv. rewrite chain3 in Hv.
+  destruct (listed_reaches_file (w_fl w) (w_root w) p name d file Hi) as [f [Hf [Hpath Hm]]].
+  rewrite <- Hpath. eapply invalid_never_written; try eassumption.
+  - eapply In_files_of_world; eassumption.
+  - eapply iface_invalid_file_error; [apply Hsel; exact Hf | exact Hm | exact Hv].
+Qed.
+
+(* file-level data and the data of interfaces selected by all: true: two levels; every file of
+   the package is affected *)
+Theorem levels_package w fs fo p f s :
+  w_fl w = FLPackage ->
+  world_files w = Some fs -> Permutation fs fo ->
+  In p (w_pkgs w) -> In f (files_of_pkg (w_fl w) (w_root w) p) ->
+  select_schema (w_env w) f = SelSchema s ->
+  validate s (JObj (chain [l_data (w_root w); l_data (p_lvl p)])) = false ->
+  ~ In (f_path f) (snd (run KTemplateSchema (w_env w) fo)) /\
+  fst (run KTemplateSchema (w_env w) fo) = ExitErr.
+Proof.
+  intros Hm Hw HP Hp Hf Hsel Hv. rewrite chain2 in Hv.
+  eapply invalid_never_written; try eassumption.
+  - eapply In_files_of_world; eassumption.
+  - eapply filedata_invalid_file_error; [exact Hsel|]. rewrite Hm in Hf.
+    rewrite (files_of_pkg_data _ _ _ Hf). exact Hv.
+Qed.
+
+(* order independence of the file loop (used by C06) *)
+Theorem run_order_independent e fs fo1 fo2 :
+  Permutation fs fo1 -> Permutation fs fo2 ->
+  fst (run KTemplateSchema e fo1) = fst (run KTemplateSchema e fo2) /\
+  (fst (run KTemplateSchema e fo1) = ExitOk ->
+   Permutation (snd (run KTemplateSchema e fo1)) (snd (run KTemplateSchema e fo2))).
+Proof.
+  intros P1 P2.
+  destruct (written_iff_valid e fs fo1 P1) as [A1 [_ C1]].
+  destruct (written_iff_valid e fs fo2 P2) as [A2 [_ C2]].
+  assert (fst (run KTemplateSchema e fo1) = fst (run KTemplateSchema e fo2)) as E.
+  { destruct (fst (run KTemplateSchema e fo1)) eqn:E1.
+    - symmetry. apply A2, A1. reflexivity.
+    - destruct (fst (run KTemplateSchema e fo2)) eqn:E2; [|reflexivity].
+      assert (ExitErr = ExitOk) as X by (apply A1, A2; reflexivity). discriminate X. }
+  split; [exact E|]. intros H. rewrite (C1 H). symmetry. apply C2. congruence.
 Qed.
